@@ -286,7 +286,7 @@ Proof.
         exists (VArr (replace_nth ar i y2)). rewrite !put_arr, Hne, A, len_replace_nth.
         destruct (Z.ltb_spec i 0); [lia|]. destruct (Z.ltb_spec i (len ar)); [|lia].
         rewrite N, P1, Hy2, (nth_z_replace_eq _ _ _ _ N), P2, Hy2, replace_nth_twice. auto.
-      * rewrite Ha in H. destruct (100000000 <? i) eqn:Cap; [discriminate|].
+      * rewrite Ha in H. destruct (max_array_backfill <? i - len ar) eqn:Cap; [discriminate|].
         destruct (put_new rest a) as [ia|] eqn:N; [|discriminate]. injection H as <- <-.
         destruct (put_new_overwrite _ _ b _ pre Ha Hb N) as (ib & Nb & Pb).
         pose proof (put_new_not_missing _ _ _ Hb Nb) as Hib.
@@ -555,7 +555,7 @@ Proof.
     assert (E : empty_path [show_Z (len arr)] = false) by (destruct (show_Z (len arr)); [congruence | reflexivity]).
     rewrite E, (atoi_show_Z _ B). destruct (Z.ltb_spec (len arr) 0); [lia|].
     destruct (Z.ltb_spec (len arr) (len arr)); [lia|]. rewrite Hv.
-    destruct (Z.ltb_spec 100000000 (len arr)); [lia|]. cbn [put_new]. rewrite Z.sub_diag. reflexivity. }
+    destruct (Z.ltb_spec max_array_backfill (len arr - len arr)); [unfold max_array_backfill in *; lia|]. cbn [put_new]. rewrite Z.sub_diag. reflexivity. }
   unfold Get, get_path in G. destruct (Access.get (VDoc d) (split_path ps) false false) as [w n] eqn:Gw.
   cbn [fst] in G. subst w.
   destruct (put_focus _ _ _ _ _ _ _ _ _ Gw eq_refl P0 eq_refl) as (x' & P1 & P2).
